@@ -16,8 +16,11 @@ CHECKS = {
              'spec/FifoStream.tla over a grid of stream lengths, capacities, concurrency, failing/rejected elements and flags, '
              'checking order, pairing, exactly-once and how the iteration may end.  Conformance leg: the real code is run '
              'under detsched (every lock operation a scheduling decision) over random/PCT/adversarial schedules; each '
-             'recorded event trace is validated by TLC against the same spec with all invariants evaluated on every state.',
-        design_ref='DESIGN.md section 6 C01', note=TB),
+             'recorded event trace is validated by TLC against the same spec with all invariants evaluated on every state; TLC '
+             'behaviours (simulation + trap goals) are steered into the real threads (spec -> code).  Process executor: real '
+             'ProcessPoolExecutor runs with inverted completion orders, validated observationally (FifoStreamObsTrace: consumer '
+             'events + shared-memory call counters logged, everything else silent, TLC searches for an explanation).',
+        design_ref='DESIGN.md section 6 C01, 11.5', note=TB),
     'C08': dict(
         technique='TLA+ spec FifoStream (look-ahead/concurrency invariants) checked by TLC + TLC trace validation of real '
                   'executions under adversarial deterministic schedules',
@@ -89,8 +92,10 @@ CHECKS['C17'] = dict(
          'unbounded queues, with and without stop requests: NoDuplicate, RoundComplete, CleanStart (no item or marker leaks between '
          'rounds), NoInternalError, deadlock-freedom and ConsumersFinish under fairness.  The real IterableQueue over queue.Queue runs '
          'under detsched; traces are validated by TLC; stop-request scenarios run in exact virtual time so that "within the wait '
-         'interval" is checked exactly.',
-    design_ref='DESIGN.md section 6 C17', note=TB + '; multiprocessing queues are not scheduled (same IterableQueue code path)')
+         'interval" is checked exactly.  TLC behaviours are steered into the real threads (spec -> code).  Over multiprocessing '
+         'queues with suppliers and consumers in separate processes only per-process event sequences exist: IterableQueueProcTrace '
+         'lets TLC search for the interleaving.',
+    design_ref='DESIGN.md section 6 C17, 11.5', note=TB + '; multiprocessing queues: sampled OS schedules, per-process event order')
 
 CHECKS['C09'] = dict(
     technique='timed TLA+ spec BatchWorker (collector thread, read lock, batch buffer, deadline-bounded consumer, competing workers; '
@@ -113,7 +118,10 @@ CHECKS['C02'] = dict(
          'failing requests per stage and every routing, checking NoCrossTalk (each delivered value was computed from that '
          'request\'s own input by the configured composition), NoMiss and (FairSpec) AllAnswered.  The real Server runs those '
          'topologies under detsched with every queue get/put of the tree logged; delivered values are decoded into provenance '
-         'records and each trace is validated by TLC; re-use of a request id is accepted only when nothing in the tree still carries it.',
+         'records and each trace is validated by TLC; re-use of a request id is accepted only when nothing in the tree still carries '
+         'it, and an adversarial (legal) identity allocator hands the identity of a dead future to the next one, for Server and '
+         'AsyncServer.  Process and mixed servlet trees run on real processes with concurrent callers and a stream; every delivered '
+         'outcome and the stream order are validated against ExpectedOK of the same spec (ServletOutcomeTrace).',
     design_ref='DESIGN.md section 6 C02', note=SRV.replace('a ThreadServlet of harness workers (the abstract pipeline of the spec)', 'thread servlet trees of harness workers'))
 CHECKS['C04'] = dict(
     technique='TLA+ spec ServletNet with failure sets per stage: TLC checks that every outcome is the request\'s own success or own '
@@ -124,7 +132,8 @@ CHECKS['C04'] = dict(
          'with ExpectedOK for all subsets of failing requests; reachability goals (batch of two, late member result after fail-fast) '
          'guard against vacuity.  In the conformance leg harness workers raise ElemError(request, site); batch compositions are '
          'logged, every delivered failure is decoded (class, args, failure-site traceback: live frames for thread servlets, text '
-         'after a process boundary) and the trace is validated by TLC.',
+         'after a process boundary) and the trace is validated by TLC.  Real process / mixed trees: failing batches carry their '
+         'members out of the worker process, outcomes validated by TLC against ExpectedOK (ServletOutcomeTrace).',
     design_ref='DESIGN.md section 6 C04', note=SRV.replace('a ThreadServlet of harness workers (the abstract pipeline of the spec)', 'thread servlet trees of harness workers'))
 
 CHECKS['C11'] = dict(
@@ -226,7 +235,8 @@ CHECKS['C13'] = dict(
          'managed() returns, delete, process exit for 2-3 client processes and up to 7 object ids are explored exhaustively by TLC. '
          'Trap goals, simulated histories (depth 40) and the two as-found counterexamples (as probes the real server must not follow) '
          'are executed against a fresh real ServerProcess each; after every external action debug_info refcounts, usability of every '
-         'live proxy, container keys and /dev/shm/<name> must equal the spec state.',
+         'live proxy, container keys and /dev/shm/<name> must equal the spec state.  Histories include re-wrapping an already hosted '
+         'object (managed() of the same object again) and client processes that drop everything and stay alive and idle.',
     design_ref='DESIGN.md section 6 C13', note=MGRNOTE)
 CHECKS['C14'] = dict(
     technique='TLA+ spec ProxyCall (hosted list / dict / Namespace / Value / custom class as sequential objects, every generated '
